@@ -73,6 +73,24 @@ func RuntimeUniverse() []Ty {
 	return out
 }
 
+// CallableUniverse: Callables over params {absent, Tuple[], Tuple[String], Tuple[Scalar], Tuple[Integer, 0, 1]}, return {absent, Any, String,
+// Scalar}, block {absent, Callable, Optional[Callable[String]]} — 60 types: every shape of CallableType.IsAssignable / Equals
+func CallableUniverse() []Ty {
+	pp := func(t Ty) *Ty { return &t }
+	params := []*Ty{nil, pp(Tup(nil)), pp(Tup([]Ty{Atom("str")})), pp(Tup([]Ty{Atom("scalar")})), pp(TupSz([]Ty{Int(MinI, MaxI)}, 0, 1))}
+	rets := []*Ty{nil, pp(Atom("any")), pp(Atom("str")), pp(Atom("scalar"))}
+	blocks := []*Ty{nil, pp(Call(nil, nil, nil)), pp(Opt(Call(pp(Tup([]Ty{Atom("str")})), nil, nil)))}
+	out := []Ty{}
+	for _, p := range params {
+		for _, r := range rets {
+			for _, b := range blocks {
+				out = append(out, Call(p, r, b))
+			}
+		}
+	}
+	return out
+}
+
 // the reduced leaf alphabets of the composite layers
 func leavesR() []Ty {
 	return []Ty{Atom("any"), Atom("undef"), Atom("str"), Int(MinI, MaxI), Int(1, 2), StrVal("a"), Enum(false, "a", "B"),
